@@ -270,6 +270,11 @@ class Flattener:
                         ast.fix_missing_locations(n)
                     # the substituted body may itself call helpers
                     return self.stmts(res, local_defs) if self.counter < 60 else res
+        if isinstance(s, ast.FunctionDef):
+            # a nested def may itself call sibling nested defs / private helpers
+            inner = {k: v for k, v in local_defs.items() if k != s.name}
+            s.body = self.stmts(s.body, inner) or [ast.Pass()]
+            return [s]
         # expression-level: helpers whose body is a single `return <expr>`
         s = self.expr_level(s, local_defs)
         # recurse into compound statements
